@@ -11,6 +11,20 @@ Python sets are canonicalised by sorting on both sides.  Groups returned by `get
 identified by object identity with the entries of `.protein_groups` and reported as
 `[position, members]`, sorted by position.
 
+A history runs over ONE OR TWO live collections (`case["colls"]`, every operation is tagged with the
+collection it acts on; the model runs independent states, one per collection) and contains, besides the
+methods of the class, the package's other MUTATING CALLERS of a collection:
+  * `rescue_update` / `rescue_update_last` — `grouping.RescuedGrouping.update_protein_groups(pg, infos)` with
+    `obsolete_protein_groups` set to a generated collection / to what the last
+    `merge_with_rescued_protein_groups` left in the grouping object (model: the `extend` step);
+  * `unseen_from j` — `RescuedGrouping.merge_with_rescued_protein_groups(pil, colls[j], infos)` with the
+    rescued grouping being collection k (model: `addUnseen` with the groups of collection j);
+  * `connected comps decouple?` — `graphs.ConnectedProteinGraphs.get_connected_proteins(pg)` /
+    `decouple_connected_proteins(pg)` over star-shaped components (model: `mergeComponents`).
+After every call the state of EVERY collection is compared with the model, and the oracle judges every
+lookup against a linear scan of the groups of the collection it was asked of.
+Cases in the old single-collection format `{"init","from_list","ops"}` (corpus) are still accepted.
+
 The model implements the REPAIRED `get_protein_groups` (the −1 marker of an unknown protein is dropped
 instead of being used as a Python position): on the unrepaired code the correspondence disagrees
 exactly there and the oracle (`membership recomputed from .protein_groups`) confirms it.
@@ -23,7 +37,7 @@ from lib import Prop
 
 INSIDE = ["A", "B", "REV__A", "CON__B", "P4", "P5"]
 OUTSIDE = ["X", "REV__X"]
-MUTATORS = {"append", "extend", "index", "merge", "clean", "unseen"}
+MUTATORS = {"append", "extend", "index", "merge", "clean", "unseen", "rescue_update", "rescue_update_last", "unseen_from", "connected"}
 CHECKED = {"group", "idx", "idxs", "groups"}  # carry an explicit check_idx_valid flag
 
 
@@ -51,6 +65,64 @@ def _pos_groups(pg, res):
         pos = next((i for i, h in enumerate(pg.protein_groups) if h is g), None)
         out.append([pos, list(g)])
     return sorted(out, key=lambda x: (-1 if x[0] is None else x[0], x[1]))
+
+
+def norm(case):
+    """the multi-collection form of a case (old single-collection cases are lifted)"""
+    if "colls" in case:
+        return case
+    return {"colls": [{"init": case.get("init"), "from_list": bool(case.get("from_list"))}],
+            "ops": [[0] + list(op) for op in case["ops"]]}
+
+
+def star_graphs(comps):
+    """one connected component per entry: protein nodes joined by one pseudo-peptide node"""
+    import collections
+
+    import networkx as nx
+
+    out = collections.deque()
+    for comp in comps:
+        G = nx.Graph()
+        for p in comp:
+            G.add_node(p, node_type="protein")
+        if len(comp) > 1:
+            for p in comp:
+                G.add_edge(p, "peptide:" + ";".join(comp))
+        out.append(G)
+    return out
+
+
+def apply_caller(colls, g, c, op):
+    """the package's other mutating callers; `colls[c]` is rebound to what the caller returns"""
+    from picked_group_fdr import graphs
+    from picked_group_fdr.protein_groups import ProteinGroups
+
+    pg, k = colls[c], op[0]
+    try:
+        if k in ("rescue_update", "rescue_update_last"):
+            if k == "rescue_update":
+                g.obsolete_protein_groups = ProteinGroups([list(x) for x in op[1]])
+                g.obsolete_protein_group_peptide_infos = [None for _ in op[1]]
+            elif not hasattr(g, "obsolete_protein_groups"):
+                g.obsolete_protein_groups, g.obsolete_protein_group_peptide_infos = ProteinGroups(), []
+            infos = [None for _ in pg.protein_groups]
+            colls[c], infos = g.update_protein_groups(pg, infos)
+            # consumed: the same list objects must not be put into a collection twice
+            g.obsolete_protein_groups, g.obsolete_protein_group_peptide_infos = ProteinGroups(), []
+            return None
+        if k == "unseen_from":
+            other = colls[op[1]]
+            g.get_rescued_protein_groups = lambda pil: pg  # the rescued grouping IS collection c
+            colls[c] = g.merge_with_rescued_protein_groups({}, other, list(range(len(other.protein_groups))))
+            return {"obsolete": [[i, list(x)] for i, x in zip(g.obsolete_protein_group_peptide_infos, g.obsolete_protein_groups.protein_groups)]}
+        if k == "connected":
+            cpg = graphs.ConnectedProteinGraphs(star_graphs(op[1]))
+            colls[c] = cpg.decouple_connected_proteins(pg) if op[2] else cpg.get_connected_proteins(pg)
+            return None
+    except Exception as e:
+        return _err(e)
+    raise ValueError("unknown op %r" % (op,))
 
 
 def apply_op(pg, op):
@@ -128,12 +200,15 @@ class P(Prop):
     thorough_cases = 100000
     chunk = 500
     rule = (
-        "operation histories of length 1-25 over append / extend / create_index / merge_groups / remove_empty_groups / "
-        "add_unseen_protein_groups interleaved with get_protein_group, _get_protein_group_idx, get_protein_group_idxs, "
-        "get_protein_groups, get_leading_proteins, is_missing / is_shared (on index sets and on group lists, as the callers "
-        "do), size, get_all_proteins; 6 inside + 2 never-added proteins; empty groups, repeated proteins and merges on unknown "
-        "or co-located proteins included; non-trivial = at least one mutator and one lookup that returned a value; "
-        "distinct by sha1 of the history"
+        "operation histories of length 1-25 over ONE OR TWO live collections (every call tagged with its collection): append / "
+        "extend / create_index / merge_groups / remove_empty_groups / add_unseen_protein_groups and the package's other mutating "
+        "callers (RescuedGrouping.update_protein_groups with generated or remembered obsolete groups, "
+        "RescuedGrouping.merge_with_rescued_protein_groups with the other collection as the old grouping, "
+        "ConnectedProteinGraphs.get_connected_proteins / decouple_connected_proteins over star components) interleaved with "
+        "get_protein_group, _get_protein_group_idx, get_protein_group_idxs, get_protein_groups, get_leading_proteins, "
+        "is_missing / is_shared (on index sets and on group lists, as the callers do), size, get_all_proteins; 6 inside + 2 "
+        "never-added proteins (+ their OBSOLETE__ forms); empty groups, repeated proteins and merges on unknown or co-located "
+        "proteins included; non-trivial = at least one mutator and one lookup that returned a value; distinct by sha1 of the history"
     )
     assumptions = [
         "groups handed to append/extend are fresh list objects (the harness never aliases one list into two positions)",
@@ -154,11 +229,17 @@ class P(Prop):
                 out.append(rng.choice(INSIDE))
         return out
 
-    def _gen_op(self, rng, present):
+    def _gen_op(self, rng, present, ncoll=1, c=0, can_update_last=False):
         r = rng.random()
         fresh = [p for p in INSIDE if p not in present]
         if r < 0.40:  # mutators
-            k = rng.choice(["append", "append", "extend", "index", "index", "merge", "merge", "clean", "unseen"])
+            ks = ["append", "append", "extend", "index", "index", "merge", "merge", "clean", "unseen",
+                  "rescue_update", "rescue_update", "connected"]
+            if ncoll > 1:
+                ks += ["unseen_from", "unseen_from"]
+            if can_update_last:
+                ks += ["rescue_update_last"] * 4
+            k = rng.choice(ks)
             if k == "append":
                 pool = fresh if (fresh and rng.random() < 0.8) else INSIDE
                 g = rng.sample(pool, min(len(pool), rng.choice([0, 1, 1, 2, 3])))
@@ -169,6 +250,23 @@ class P(Prop):
                 for _ in range(rng.choice([0, 1, 2, 2])):
                     gs.append(rng.sample(pool, min(len(pool), rng.choice([0, 1, 1, 2]))))
                 return ["extend", gs]
+            if k == "rescue_update":
+                # what add_unseen_protein_groups leaves behind: old groups with the OBSOLETE__ prefix
+                pool = present if (present and rng.random() < 0.8) else INSIDE
+                gs = []
+                for _ in range(rng.choice([0, 1, 1, 2])):
+                    gs.append(["OBSOLETE__" + x for x in rng.sample(pool, min(len(pool), rng.choice([1, 1, 2])))])
+                return ["rescue_update", gs]
+            if k == "rescue_update_last":
+                return ["rescue_update_last"]
+            if k == "unseen_from":
+                return ["unseen_from", 1 - c]
+            if k == "connected":
+                pool = (present or INSIDE) if rng.random() < 0.9 else INSIDE + OUTSIDE
+                comps = []
+                for _ in range(rng.choice([1, 1, 2])):
+                    comps.append(rng.sample(pool, min(len(pool), rng.choice([1, 2, 2, 3]))))
+                return ["connected", comps, rng.random() < 0.5]
             if k == "index":
                 return ["index"]
             if k == "clean":
@@ -191,29 +289,47 @@ class P(Prop):
             return [k]
         return [k, self._prots(rng, 0 if rng.random() < 0.1 else 1, 3, present)]
 
+    def _gen_coll(self, rng):
+        pool = INSIDE[:]
+        rng.shuffle(pool)
+        k = rng.randint(0, 3)
+        init = [pool[i::k] for i in range(k)] if k else []
+        return {"init": init, "from_list": rng.random() < 0.7}
+
     def gen_case(self, rng, tier):
         n = rng.choice([1, 2, 3, 4, 6, 8, 10, 12, 16, 20, 25])
-        init, from_list = None, False
-        present = set()
-        if rng.random() < 0.3:
-            pool = INSIDE[:]
-            rng.shuffle(pool)
-            k = rng.randint(0, 3)
-            init = [pool[i::k] for i in range(k)] if k else []
-            from_list = rng.random() < 0.7
-            present = {p for g in init for p in g}
+        ncoll = 2 if rng.random() < 0.5 else 1
+        colls, present = [], []
+        for c in range(ncoll):
+            if rng.random() < (0.3 if ncoll == 1 else 0.6):
+                colls.append(self._gen_coll(rng))
+                present.append({p for g in colls[-1]["init"] for p in g})
+            else:
+                colls.append({"init": None, "from_list": False})
+                present.append(set())
         ops = []
         reindex = rng.choice([0.0, 0.3, 0.6, 0.9])  # how often a caller re-indexes right after a change
+        have_obs = False  # the grouping object remembers obsolete groups of the last merge_with_rescued_protein_groups
         for _ in range(n):
-            op = self._gen_op(rng, sorted(present))
-            ops.append(op)
-            if op[0] in ("append", "extend", "merge") and rng.random() < reindex:
-                ops.append(["index"] if rng.random() < 0.8 else ["clean"])
-            if op[0] == "append":
-                present |= set(op[1])
-            elif op[0] in ("extend", "unseen"):
-                present |= {p for g in op[1] for p in g}
-        return {"init": init, "from_list": from_list, "ops": ops}
+            c = rng.randrange(ncoll)
+            op = self._gen_op(rng, sorted(present[c]), ncoll, c, have_obs)
+            ops.append([c] + op)
+            k = op[0]
+            if k in ("append", "extend", "merge", "rescue_update", "rescue_update_last") and rng.random() < reindex:
+                ops.append([c, "index"] if rng.random() < 0.8 else [c, "clean"])
+            if k == "append":
+                present[c] |= set(op[1])
+            elif k in ("extend", "unseen", "rescue_update"):
+                present[c] |= {p for g in op[1] for p in g}
+            elif k == "unseen_from":
+                present[c] |= present[op[1]]
+                have_obs = True
+            elif k == "rescue_update_last":
+                present[c] |= {"OBSOLETE__" + p for p in INSIDE}
+                have_obs = False
+            elif k == "rescue_update":
+                have_obs = False
+        return {"colls": colls, "ops": ops}
 
     def exhaustive_cases(self, tier):
         alpha = [
@@ -221,48 +337,65 @@ class P(Prop):
             ["merge", "A", "B"], ["merge", "B", "A"], ["unseen", [["A"], ["B", "P4"]]],
             ["group", "A", True], ["group", "X", True], ["idxs", ["B", "X"], True],
             ["groups", ["A", "X"], True], ["groups", ["X"], True], ["missing_groups", ["X"]], ["lead", ["B"]],
+            ["rescue_update", [["OBSOLETE__A"]]], ["connected", [["B", "A"]], False], ["idxs", ["OBSOLETE__A"], True],
         ]
         out = []
         for n in range(1, 5):
             for seq in itertools.product(alpha, repeat=n):
-                out.append({"init": None, "from_list": False, "ops": [list(o) for o in seq]})
+                out.append({"colls": [{"init": None, "from_list": False}], "ops": [[0] + list(o) for o in seq]})
+        # two collections, one call each per step: every history of length <= 3 over a small tagged alphabet
+        beta = [[c] + o for c in (0, 1) for o in (["index"], ["append", ["A"]], ["group", "A", True], ["idxs", ["B"], True])] + [
+            [0, "unseen_from", 1], [0, "rescue_update_last"]]
+        for n in range(1, 4):
+            for seq in itertools.product(beta, repeat=n):
+                out.append({"colls": [{"init": [["A"], ["B"]], "from_list": True}, {"init": [["B"], ["A"]], "from_list": False}],
+                            "ops": [list(o) for o in seq]})
         return out
 
     # ---------------------------------------------------------------- implementation
     def run_impl(self, case):
+        from picked_group_fdr import grouping
         from picked_group_fdr.protein_groups import ProteinGroups
 
-        if case.get("init") is None:
-            pg = ProteinGroups()
-        elif case.get("from_list"):
-            pg = ProteinGroups.init_from_list([list(g) for g in case["init"]])
-        else:
-            pg = ProteinGroups([list(g) for g in case["init"]])
-        steps = []
-        for op in case["ops"]:
-            before = [list(g) for g in pg.protein_groups]
-            out = apply_op(pg, op)
-            st = _state(pg)
-            st["out"] = out
-            st["_before"] = before
-            steps.append(st)
-        return {"steps": [{k: v for k, v in s.items() if k != "_before"} for s in steps],
-                "_rec": {"before": [s["_before"] for s in steps]}}
+        case = norm(case)
+        colls = []
+        for spec in case["colls"]:
+            if spec.get("init") is None:
+                colls.append(ProteinGroups())
+            elif spec.get("from_list"):
+                colls.append(ProteinGroups.init_from_list([list(g) for g in spec["init"]]))
+            else:
+                colls.append(ProteinGroups([list(g) for g in spec["init"]]))
+        g = grouping.RescuedSubsetGrouping()  # one grouping strategy object per history, as in a run
+        steps, befores = [], []
+        for top in case["ops"]:
+            c, op = top[0], top[1:]
+            befores.append([[list(x) for x in pg.protein_groups] for pg in colls])
+            if op[0] in ("rescue_update", "rescue_update_last", "unseen_from", "connected"):
+                out = apply_caller(colls, g, c, op)
+            else:
+                out = apply_op(colls[c], op)
+            steps.append({"out": out, "states": [_state(pg) for pg in colls]})
+        return {"steps": steps, "_rec": {"before": befores}}
 
     # ---------------------------------------------------------------- model
     def model_request(self, case, impl_out):
-        req = {"op": "pg", "ops": case["ops"]}
-        if case.get("init") is not None:
-            req["init"] = case["init"]
-            req["from_list"] = bool(case.get("from_list"))
-        return req
+        case = norm(case)
+        ops = []
+        for top in case["ops"]:
+            if top[1] == "connected":  # the callers iterate over the SORTED protein nodes of a component
+                top = [top[0], "connected", [sorted(comp) for comp in top[2]], bool(top[3])]
+            ops.append(top)
+        return {"op": "pg2", "colls": [{"init": s.get("init"), "from_list": bool(s.get("from_list"))} for s in case["colls"]],
+                "ops": ops}
 
     def model_view(self, case, resp, impl_out):
         if "steps" not in resp:
             return resp
         return {
             "steps": [
-                {"groups": s["groups"], "valid": s["valid"], "index": sorted(s["index"]), "out": canon_out(s["out"])}
+                {"out": canon_out(s["out"]),
+                 "states": [{"groups": t["groups"], "valid": t["valid"], "index": sorted(t["index"])} for t in s["states"]]}
                 for s in resp["steps"]
             ]
         }
@@ -274,29 +407,44 @@ class P(Prop):
 
     # ---------------------------------------------------------------- the property, stated directly
     def oracle(self, case, impl_out):
-        """Membership is recomputed from `.protein_groups` as it was when the call was made; `fresh` is the
-        oracle's own record of "the index has been rebuilt since the last change"."""
+        """Membership is recomputed by a linear scan of `.protein_groups` OF THE COLLECTION THE CALL WAS MADE ON, as it
+        was when the call was made; `fresh[c]` is the oracle's own record of "the index of collection c has been rebuilt
+        since its last change"."""
         if not isinstance(impl_out, dict) or "steps" not in impl_out:
             return "no step record: %r" % (impl_out,)
-        fresh = bool(case.get("init") is not None and case.get("from_list"))
+        case = norm(case)
+        fresh = [bool(s.get("init") is not None and s.get("from_list")) for s in case["colls"]]
         befores = impl_out["_rec"]["before"]
-        for n, (op, st, groups) in enumerate(zip(case["ops"], impl_out["steps"], befores)):
+        for n, (top, st, all_groups) in enumerate(zip(case["ops"], impl_out["steps"], befores)):
+            c, op = top[0], top[1:]
+            groups = all_groups[c]
             k, out = op[0], st["out"]
+            # no call may touch another collection
+            for d, gs in enumerate(all_groups):
+                if d != c and st["states"][d]["groups"] != gs:
+                    return "step %d %r: the groups of collection %d changed although the call was made on collection %d" % (n, top, d, c)
             where = {}
             for i, g in enumerate(groups):
                 for p in g:
                     where.setdefault(p, []).append(i)
             unique = all(len(v) == 1 for v in where.values())
-            tag = "step %d %r: " % (n, op)
+            tag = "step %d %r: " % (n, top)
+            failed = isinstance(out, dict) and "err" in out
             if k in MUTATORS:
-                if k in ("append", "extend"):
-                    fresh = False
+                if k in ("append", "extend", "rescue_update", "rescue_update_last"):
+                    fresh[c] = False
                 elif k == "merge":
                     if out is None:
-                        fresh = False
-                else:
-                    fresh = True
+                        fresh[c] = False
+                elif k == "connected":
+                    if not failed:
+                        fresh[c] = True  # the caller ended with remove_empty_groups
+                    elif st["states"][c]["groups"] != groups:
+                        fresh[c] = False
+                elif not failed:
+                    fresh[c] = True
                 continue
+            fresh_c = fresh[c]
             if k in ("size", "all"):
                 continue
             check = op[2] if k in CHECKED else True
@@ -308,7 +456,7 @@ class P(Prop):
             if isinstance(out, dict) and "err" in out:
                 e = out["err"]
                 if e == "invalid_index":
-                    if fresh:
+                    if fresh_c:
                         return tag + "failed with 'index is invalid' although the index was rebuilt after the last change"
                     continue
                 if e == "unknown_protein" and k in ("group", "idx", "lead") and absent:
@@ -380,37 +528,49 @@ class P(Prop):
     def nontrivial(self, case, impl_out):
         if not isinstance(impl_out, dict) or "steps" not in impl_out:
             return False
-        mut = any(op[0] in MUTATORS for op in case["ops"])
+        ops = [t[1:] for t in norm(case)["ops"]]
+        mut = any(op[0] in MUTATORS for op in ops)
         ans = any(
             op[0] not in MUTATORS and op[0] not in ("size", "all") and isinstance(s["out"], dict) and "err" not in s["out"]
-            for op, s in zip(case["ops"], impl_out["steps"])
+            for op, s in zip(ops, impl_out["steps"])
         )
         return mut and ans
 
     def features(self, case, impl_out):
-        f = ["len=%s" % (len(case["ops"]) if len(case["ops"]) < 10 else "10+")]
+        case = norm(case)
+        f = ["len=%s" % (len(case["ops"]) if len(case["ops"]) < 10 else "10+"), "collections=%d" % len(case["colls"])]
         if not isinstance(impl_out, dict) or "steps" not in impl_out:
             return f + ["no-steps"]
-        for op, s in zip(case["ops"], impl_out["steps"]):
+        touched = set()
+        for top, s in zip(case["ops"], impl_out["steps"]):
+            op = top[1:]
             o = s["out"]
+            if op[0] in MUTATORS:
+                touched.add(top[0])
             if isinstance(o, dict) and "err" in o:
                 f.append("%s:%s" % (op[0], o["err"]))
             else:
                 f.append("%s:ok" % op[0])
+                if op[0] not in MUTATORS and op[0] not in ("size", "all") and len(touched - {top[0]}) > 0:
+                    f.append("lookup-answered-after-other-collection-changed")
             if op[0] in ("groups", "idxs", "missing_groups", "missing", "group") and any(p in OUTSIDE for p in ([op[1]] if isinstance(op[1], str) else op[1])):
                 f.append("outside-protein-queried")
         return sorted(set(f))
 
     def shrink(self, case):
-        ops = case["ops"]
+        case = norm(case)
+        ops, colls = case["ops"], case["colls"]
         for i in range(len(ops) - 1, -1, -1):
-            yield {"init": case.get("init"), "from_list": case.get("from_list"), "ops": ops[:i] + ops[i + 1 :]}
-        if case.get("init"):
-            yield {"init": None, "from_list": False, "ops": ops}
+            yield {"colls": colls, "ops": ops[:i] + ops[i + 1 :]}
+        for c, spec in enumerate(colls):
+            if spec.get("init"):
+                yield {"colls": colls[:c] + [{"init": None, "from_list": False}] + colls[c + 1 :], "ops": ops}
+        if len(colls) == 2 and not any(t[0] == 1 or t[1] == "unseen_from" for t in ops):
+            yield {"colls": colls[:1], "ops": ops}
         for i, op in enumerate(ops):
-            for j in range(1, len(op)):
+            for j in range(2, len(op)):
                 if isinstance(op[j], list) and op[j]:
                     for t in range(len(op[j])):
                         op2 = list(op)
                         op2[j] = op[j][:t] + op[j][t + 1 :]
-                        yield {"init": case.get("init"), "from_list": case.get("from_list"), "ops": ops[:i] + [op2] + ops[i + 1 :]}
+                        yield {"colls": colls, "ops": ops[:i] + [op2] + ops[i + 1 :]}
